@@ -43,6 +43,23 @@ CUNITS = [
     cunit('fa_await_suspend', r'^std::__n4861::coroutine_handle<void> cocls::async_promise<int>::final_awaiter::await_suspend<cocls::async_promise<int> >\('),
 ]
 UNITS = CUNITS + [drive(s) for s in SCEN]
+# "its body executes exactly once" for start() / join() / future(async) issued while a coroutine is running on the calling thread: the
+# child must be RUN by start() (nested activation), not merely queued behind the caller (a join() would then wait for itself - seeded
+# change C04-6).  The start() lambda is under contract in C05 (unit start_nested: exactly one direct resume of the child, no push); re-run here.
+import importlib.util as _ilu4, os as _os4, copy as _copy4
+def _c05(names):
+    if _os4.environ.get('CV_NESTED_IMPORT'): return []          # C05 imports C04 as well: cut the cycle
+    _os4.environ['CV_NESTED_IMPORT'] = '1'
+    try:
+        sp = _ilu4.spec_from_file_location('c04_c05', _os4.path.join(_os4.path.dirname(_os4.path.dirname(_os4.path.abspath(__file__))), 'C05', 'units.py')); m = _ilu4.module_from_spec(sp); sp.loader.exec_module(m)
+    finally:
+        del _os4.environ['CV_NESTED_IMPORT']
+    out = []
+    for x in m.UNITS:
+        if x['name'] in names:
+            v = _copy4.deepcopy(x); v['name'] = 'C05_' + x['name']; v['defines'] = list(v.get('defines', [])) + ['CV_IMPORTED_BY_C04 1']; out.append(v)
+    return out
+UNITS += _c05(['start_nested'])
 META = dict(
     level='proof',
     level_text='Contract units (proof): async<int>::start_coro, start_promise, start(promise&), detach, ~async, async(async&&), operator co_await, co_awaiter::await_ready/await_suspend, async_promise::resolve, final_awaiter::await_suspend. Clauses from the property: the handle leaves the object exactly once; start(promise) on a claimed promise starts nothing and keeps the coroutine; detach binds nobody; ~async destroys exactly when a handle is still held; co_await wires the awaiting coroutine as the only waiter of the embedded future and binds the child to exactly that future; at final suspend the bound future is resolved strictly before the frame is destroyed, the frame is destroyed exactly once, one released waiter gets the symmetric transfer and the others are released through the discarded suspend point. Bounded drives (never counted as proved) execute really lowered scripted coroutines through the real library for start mode x completion mode (start value/throw, start(promise), start(claimed promise), detach, never started, join, future(async), async<void>): body ran exactly once, value/exception at exactly the bound party, every Guard (argument and local) destroyed exactly once, allocations == frees, normal mode restored.',
